@@ -1,6 +1,8 @@
 package leg
 
 import (
+	"strconv"
+	"encoding/hex"
 	"bytes"
 	"fmt"
 	"os"
@@ -546,7 +548,95 @@ func genC20legacy(c *lp.Ctx) {
 	}
 }
 
+// exactCountKeys: n distinct keys (mixed shapes) for leaf counts that matter to word-sized bitmaps: 64, 128, 192 …
+func exactCountKeys(c *lp.Ctx, n int) []string {
+	m := map[string]struct{}{}
+	al := []byte{0x00, 0x01, 0x0f, 0x10, 0x61, 0x62, 0x7f, 0x80, 0xf0, 0xff}
+	for len(m) < n {
+		l := 1 + c.Rng.Intn(5)
+		b := make([]byte, l)
+		for i := range b {
+			b[i] = al[c.Rng.Intn(len(al))]
+		}
+		m[string(b)] = struct{}{}
+	}
+	keys := make([]string, 0, n)
+	for k := range m {
+		keys = append(keys, k)
+	}
+	sort.Strings(keys)
+	return keys
+}
+
+// genC14legacy: C14 on tries LOADED FROM LEGACY STREAMS of every layout ("including … loaded tries"): GetI8/16/32/64
+// must return the same found flag and number as Get, for every indexed key and for absent queries; leaf counts
+// include exact multiples of 64 (a presence bitmap the loader rebuilds ends on a word boundary there).
+func genC14legacy(c *lp.Ctx) {
+	all := append(append([]string{}, Variants3...), Variants10...)
+	defer func() { curEnc, curVals = "i32", I32Vals }()
+	it := 0
+	for _, ew := range []struct {
+		enc string
+		w   int
+	}{{"i8", 1}, {"i16", 2}, {"i32", 4}, {"i64", 8}} {
+		curEnc, curVals = ew.enc, widthVals(ew.w)
+		sizes := []int{64, 128, 1 + c.Rng.Intn(200), 192, 63, 65}
+		for _, n := range sizes[:c.Pick(4, 6)] {
+			if ew.w == 1 && n > 200 {
+				n = 128
+			}
+			keys := exactCountKeys(c, n)
+			for j := 0; j < c.Pick(3, len(all)); j++ {
+				variant := all[(it+j*5)%len(all)]
+				vals := curVals(len(keys))
+				stream, err := Write(variant, keys, vals)
+				if err != nil {
+					continue
+				}
+				c.Do(writeLine(variant, keys, vals))
+				l := &loaded{c: c, o: &oracle{keys, vals}, variant: variant, stream: stream, what: fmt.Sprintf("typed getters, %d keys", n)}
+				if !l.load() {
+					continue
+				}
+				c.Hit(fmt.Sprintf("legacy-typed-getter:%s:%s", ew.enc, variant))
+				c.Case(fmt.Sprintf("%s|%s|%d|%d", variant, ew.enc, n, it), true)
+				qs := append([]string{}, keys...)
+				qs = append(qs, gen.Queries(c.Rng, keys, 30)...)
+				for _, q := range qs {
+					g := c.Do("trie.get " + lp.XS(q))
+					ti := c.Do(fmt.Sprintf("trie.geti%d %s", 8*ew.w, lp.XS(q)))
+					want := "nf 0"
+					if strings.HasPrefix(g, "f x") {
+						b, _ := hex.DecodeString(g[3:])
+						var u uint64
+						for i := len(b) - 1; i >= 0; i-- {
+							u = u<<8 | uint64(b[i])
+						}
+						sh := uint(64 - 8*ew.w)
+						want = "f " + strconv.FormatInt(int64(u<<sh)>>sh, 10)
+					} else if g != "nf" {
+						want = g // panic etc.: the typed getter must at least not succeed differently
+					}
+					if ti != want {
+						l.viol("typed getter agrees with Get on a trie loaded from a legacy stream", fmt.Sprintf("trie.geti%d %s", 8*ew.w, lp.XS(q)), want, ti)
+						break
+					}
+				}
+			}
+			it++
+		}
+	}
+}
+
 func genC06(c *lp.Ctx) {
+	// leaf counts that are exact multiples of 64 (and their neighbours) in every layout
+	all0 := append(append([]string{}, Variants3...), Variants10...)
+	for i, n := range []int{64, 128, 192, 63, 65}[:c.Pick(3, 5)] {
+		keys := exactCountKeys(c, n)
+		for j := 0; j < c.Pick(4, len(all0)); j++ {
+			runVariant(c, all0[(i*4+j*3)%len(all0)], fmt.Sprintf("exact-%d", n), keys, 1, c.Pick(20, 60), c.Pick(3, 8))
+		}
+	}
 	all := append(append([]string{}, Variants3...), Variants10...)
 	n := c.Pick(150, 500)
 	size := c.Pick(120, 400)
@@ -882,4 +972,5 @@ func DirectCheck(stream []byte, keys []string, vals [][]byte, exact bool, c *lp.
 func init() {
 	lp.RegisterGen("C06", genC06)
 	lp.RegisterGen("C20", genC20legacy)
+	lp.RegisterGen("C14", genC14legacy)
 }
